@@ -249,7 +249,7 @@ def run_property(prop_id, spec, tier, seed=0, only_unit=None, keep=False, verbos
             opts = dict(query_timeout_ms=u.get('query_timeout_ms', 20000 if tier == 'quick' else 300000),
                         max_steps=u.get('max_steps', 5_000_000), max_loop=u.get('max_loop', 2000),
                         max_paths=u.get('max_paths', 200000), overrides=u.get('overrides', {}),
-                        resolve_selects=u.get('resolve_selects', False), concrete_defaults=u.get('concrete', False))
+                        resolve_selects=u.get('resolve_selects', False), concrete_defaults=u.get('concrete', False), numeric_exp=u.get('numeric_exp', False))
             for fx in expand_split(u.get('split')):
                 jobs.append((unit_paths[u['name']], fx, opts, u['name']))
         rnd = random.Random(seed)
@@ -506,6 +506,9 @@ def replay(native, u, inputs, label, issue_kind):
     if issue_kind is None:
         if any(label == f or label.startswith(f) or f.startswith(label) for f in failed):
             return dict(reproduced=True, rc=rc, failed=failed[:5])
+        if label.startswith('all ranks of a communicator call the same collective') and any('deadlock' in f for f in failed):
+            # a mismatched collective is a consistency check of the MPI model; on real MPI it shows up as a hang
+            return dict(reproduced=True, rc=rc, failed=failed[:5], note='collective mismatch reproduced as a hang under mpiexec')
         return dict(reproduced=False, rc=rc, why='native run did not fail the check (failed=%s, rc=%s, tail=%s)' % (failed[:3], rc, (out + err)[-200:]))
     # monitor hit: need a sanitizer report / crash / uncaught exception
     if 'AddressSanitizer' in err or 'runtime error' in err or rc in (-11, -6, 134, 139) or 'terminate called' in err:
